@@ -2,16 +2,53 @@
 // counterexample and evaluates the same postcondition. exit 1 = violated on the real code, 0 = holds, 2 = usage.
 #include "replay/common/args.hh"
 #include "Encoding.hh"
+#include <type_traits>
 using namespace phosg;
 
 static uint64_t rev(uint64_t a, int n) { uint64_t r = 0; for (int k = 0; k < n; k++) r |= ((a >> (8 * k)) & 0xFF) << (8 * (n - 1 - k)); return r; }
 template <typename T, typename U> static U bits(T v) { U u; memcpy(&u, &v, sizeof(u)); return u; }
+
+template <typename R, typename S> static int se(uint64_t a) {
+  S s = (S)a; R r = sign_extend<R, S>(s);
+  using SS = std::make_signed_t<S>; using SR = std::make_signed_t<R>; using UR = std::make_unsigned_t<R>;
+  UR e = (UR)(SR)(SS)s;
+  RCHECK((UR)r == e, "sign_extend(0x%llX) = 0x%llX, expected 0x%llX", (unsigned long long)a, (unsigned long long)(UR)r, (unsigned long long)e);
+  printf("holds on this input\n"); return 0;
+}
+template <typename S> static int se_r(const std::string& R, uint64_t a) {
+  if constexpr (sizeof(S) < 2) { if (R == "uint16_t") return se<uint16_t, S>(a); if (R == "int16_t") return se<int16_t, S>(a); }
+  if constexpr (sizeof(S) < 4) { if (R == "uint32_t") return se<uint32_t, S>(a); if (R == "int32_t") return se<int32_t, S>(a); }
+  if (R == "uint64_t") return se<uint64_t, S>(a); if (R == "int64_t") return se<int64_t, S>(a);
+  return 2;
+}
+template <typename A_, typename R_> static int bs(uint64_t a, int n) {
+  A_ x; memcpy(&x, &a, sizeof(x)); R_ r = bswap<A_, R_>(x); uint64_t rb = 0; memcpy(&rb, &r, sizeof(r));
+  RCHECK(rb == rev(a & (n == 8 ? ~0ull : ((1ull << (8 * n)) - 1)), n), "bswap<> of bits 0x%llX gives bits 0x%llX", (unsigned long long)a, (unsigned long long)rb);
+  printf("holds on this input\n"); return 0;
+}
 
 int main(int argc, char** argv) {
   Args A(argc, argv);
   uint64_t a = A.u("in_a");
   const std::string& m = A.mode;
   printf("mode=%s in_a=0x%llX\n", m.c_str(), (unsigned long long)a);
+  if (m == "sign_extend" && A.extra.size() == 2) {
+    const std::string& S = A.extra[1];
+    if (S == "uint8_t") return se_r<uint8_t>(A.extra[0], a); if (S == "int8_t") return se_r<int8_t>(A.extra[0], a);
+    if (S == "uint16_t") return se_r<uint16_t>(A.extra[0], a); if (S == "int16_t") return se_r<int16_t>(A.extra[0], a);
+    if (S == "uint32_t") return se_r<uint32_t>(A.extra[0], a); if (S == "int32_t") return se_r<int32_t>(A.extra[0], a);
+    return 2;
+  }
+  if (m == "bswap_spec" && A.extra.size() == 2) {
+    std::string k = A.extra[0] + "," + A.extra[1];
+    if (k == "uint8_t,uint8_t") return bs<uint8_t, uint8_t>(a, 1); if (k == "int8_t,int8_t") return bs<int8_t, int8_t>(a, 1);
+    if (k == "uint16_t,uint16_t") return bs<uint16_t, uint16_t>(a, 2); if (k == "int16_t,int16_t") return bs<int16_t, int16_t>(a, 2);
+    if (k == "uint32_t,uint32_t") return bs<uint32_t, uint32_t>(a, 4); if (k == "int32_t,int32_t") return bs<int32_t, int32_t>(a, 4);
+    if (k == "uint64_t,uint64_t") return bs<uint64_t, uint64_t>(a, 8); if (k == "int64_t,int64_t") return bs<int64_t, int64_t>(a, 8);
+    if (k == "float,uint32_t") return bs<float, uint32_t>(a, 4); if (k == "uint32_t,float") return bs<uint32_t, float>(a, 4);
+    if (k == "double,uint64_t") return bs<double, uint64_t>(a, 8); if (k == "uint64_t,double") return bs<uint64_t, double>(a, 8);
+    return 2;
+  }
   if (m == "ext24") { a &= 0xFFFFFF; int32_t r = ext24(a); int32_t e = (a & 0x800000) ? (int32_t)(a | 0xFF000000u) : (int32_t)a;
     RCHECK(r == e, "ext24(0x%llX) = 0x%X, expected 0x%X", (unsigned long long)a, r, e); }
   else if (m == "ext48") { a &= 0xFFFFFFFFFFFFull; int64_t r = ext48(a); int64_t e = (a >> 47) ? (int64_t)(a | 0xFFFF000000000000ull) : (int64_t)a;
